@@ -19,10 +19,21 @@ def tie(rep, tier, rng, model_ok):
     q = tier == "quick"
     a = simprops.corpus_cases("C01") + [simgen.gen_sched(rng) for _ in range(400 if q else 12000)]
     b = [simgen.gen_multi(rng) for _ in range(150 if q else 4000)]
+    # a second user of the Scheduler handle acting while a step waits for the clock (answer -2 of the
+    # scripted clock = "Synchronized" + a probe request at the step's own deadline)
+    p = []
+    for _ in range(150 if q else 4000):
+        c = simgen.gen_sched(rng)
+        if not c.get("clock"):
+            c["clock"] = [None] * 40
+        c["clock"] = [(-2 if (x is None and rng.random() < 0.5) else x) for x in c["clock"]]
+        c["tags"].add("clock")
+        p.append(c)
     simprops.run(rep, "C01", model_ok,
                  [("sched-1thread", a, (1,), ORACLES, nontrivial),
+                  ("clock-probe", p, (1, 2), ORACLES + (oracles.o_clock_probe,), nontrivial),
                   ("multi-model", b, (1, 4) if q else (1, 2, 3, 4, 8, 16), (oracles.o_harness, oracles.o_time, oracles.o_clock), nontrivial)],
-                 "sched: one self-scheduling model, driver schedules one-shot/keyed/periodic events on a 10-ns lattice (ties frequent), step/step_until on and around deadlines, cancellations, scripted clock; exact log comparison. multi: 2-4 models in a DAG with small mailboxes, multiset comparison on several thread counts. non-trivial = >=2 handlers fired and a stepping command")
+                 "sched: one self-scheduling model, driver schedules one-shot/keyed/periodic events on a 10-ns lattice (ties frequent), step/step_until on and around deadlines, cancellations, scripted clock; exact log comparison. clock-probe: the scripted clock, holding a Scheduler handle, requests an event at the deadline of the step in progress from inside Clock::synchronize (must be refused; the model sees a plain Synchronized answer). multi: 2-4 models in a DAG with small mailboxes, multiset comparison on several thread counts. non-trivial = >=2 handlers fired and a stepping command")
 
 
 def replay(rep, path, model_ok):
